@@ -25,8 +25,9 @@ the initial state. Threads are natural numbers — there is no bound on their nu
 -/
 namespace Redb.Conc
 
-abbrev Tid := Nat
-abbrev Ver := Nat
+/-- thread ids and versions are natural numbers (notations, so that `omega` sees `Nat`) -/
+scoped notation "Tid" => Nat
+@[inherit_doc] scoped notation "Ver" => Nat
 
 /-- program counter of a thread: which atomic action of which call comes next -/
 inductive PC where
@@ -301,7 +302,6 @@ inductive Rule where
   | commitNotPublished -- commit() returned but the version was not published
   | abortPublished     -- abort() returned but the version is visible
   | savepointOnDirty   -- C16: ephemeral savepoint registered in a dirty transaction
-  | notBlocked         -- reported blocked, but the call was not in progress
   | unfinished         -- a call had not ended at the end of the schedule
 deriving DecidableEq, Repr
 
@@ -316,77 +316,79 @@ def completed (s : Sys) (f : Ver) : Bool :=
 
 def Cand.quiet (c : Cand) (t : Tid) : Bool := c.sys.pc t == .idle && c.win t == none
 
-def Cand.openWin (c : Cand) (t : Tid) (k : Kind) : Cand := { c with win := setWin c.win t (some k) }
-
-/-- the effect of one event on one candidate (after the closure): `none` = this candidate cannot
-explain the event -/
-def applyEv (m : Mon) (c : Cand) : Event → Option Cand
+/-- what one event means for one candidate (after the closure): `none` = this candidate cannot
+explain the event (a guard on the thread's program counter fails); otherwise the visible model
+actions the event stands for, and the windows after it -/
+def evActs (m : Mon) (c : Cand) : Event → Option (List Action × (Tid → Option Kind))
   | .readBegin t f =>
-    if c.quiet t && completed c.sys f then some (c.openWin t .register) else none
+    if c.quiet t && completed c.sys f then some ([], setWin c.win t (some .register)) else none
   | .at t .beginReadRegistered =>
     match c.sys.pc t with
-    | .registered _ => some (c.openWin t .readRoot)
+    | .registered _ => some ([], setWin c.win t (some .readRoot))
     | _ => none
   | .readEnd t v v2 _ cons =>
     -- both full reads are `read` actions of the model through the root the thread holds
-    match step c.sys ⟨t, .read v⟩ with
-    | some s1 => match step s1 ⟨t, .read v2⟩ with
-      | some s2 => if cons && m.floor t ≤ v then some { c with sys := s2 } else none
-      | none => none
-    | none => none
+    if cons && m.floor t ≤ v then some ([⟨t, .read v⟩, ⟨t, .read v2⟩], c.win) else none
   | .readError _ => none
   | .at t .guardDropRead =>
     match c.sys.pc t with
-    | .reading _ _ => some (c.openWin t .drop)
-    | .idle => if c.win 0 == some .drop then some c else none   -- the drop of the set-up reader
+    | .reading _ _ => some ([], setWin c.win t (some .drop))
+    | .idle => if c.win 0 == some .drop then some ([], c.win) else none  -- drop of the set-up reader
     | _ => none
   | .dropReader t p =>
     -- the thread drops the reader pinned during set-up (thread 0), which must still show `p`
-    if c.quiet t then
-      match step c.sys ⟨0, .read p⟩ with
-      | some s1 => some { sys := s1, win := setWin c.win 0 (some .drop) }
-      | none => none
-    else none
-  | .writeBegin t => if c.quiet t then some (c.openWin t .acquire) else none
-  | .writeStarted t v =>
-    match step c.sys ⟨t, .body v⟩ with
-    | some s1 => some { c with sys := s1 }
-    | none => none
+    if c.quiet t then some ([⟨0, .read p⟩], setWin c.win 0 (some .drop)) else none
+  | .writeBegin t => if c.quiet t then some ([], setWin c.win t (some .acquire)) else none
+  | .writeStarted t v => some ([⟨t, .body v⟩], c.win)
   | .at t .setDirty =>
     match c.sys.pc t with
-    | .body _ => some c
+    | .body _ => some ([], c.win)
     | _ => none
   | .at t .memBeforeSwap | .at t .ndBeforePublish =>
     match c.sys.pc t with
-    | .body _ => some (c.openWin t .publish)
-    | .holding => some c          -- nothing was written: nothing to publish
+    | .body _ => some ([], setWin c.win t (some .publish))
+    | .holding => some ([], c.win)          -- nothing was written: nothing to publish
     | _ => none
   | .at t .durableHorizon | .at t .durableFreed | .at t .durableBeforeCommit
   | .at t .memBetweenHeaders | .at t .ndHorizon =>
     match c.sys.pc t with
-    | .body _ => if c.win t == none then some c else none
-    | .holding => some c
+    | .body _ => if c.win t == none then some ([], c.win) else none
+    | .holding => some ([], c.win)
     | _ => none
   | .at t .durableAfterCommit | .at t .ndAfterPublish
   | .at t .durableBeforeEpilogue | .at t .epilogueHorizon =>
     match c.sys.pc t with
-    | .published _ => some c
-    | .holding => some c
+    | .published _ => some ([], c.win)
+    | .holding => some ([], c.win)
     | _ => none
   | .at t .spEnter | .at t .spChecked =>
-    if isWriterPc (c.sys.pc t) && c.win t == none then some c else none
+    if isWriterPc (c.sys.pc t) && c.win t == none then some ([], c.win) else none
   | .at t .writeDrop =>
-    if isWriterPc (c.sys.pc t) && c.win t == none then some (c.openWin t .release) else none
-  | .at _ .spDrop | .at _ .dbDrop => some c
+    if isWriterPc (c.sys.pc t) && c.win t == none then some ([], setWin c.win t (some .release))
+    else none
+  | .at _ .spDrop | .at _ .dbDrop => some ([], c.win)
   | .writeEnd t (.committed v) =>
-    if c.quiet t && m.wver t == some v && c.sys.log.contains (v, true) then some c else none
+    if c.quiet t && m.wver t == some v && c.sys.log.contains (v, true) then some ([], c.win)
+    else none
   | .writeEnd t (.aborted v) =>
-    if c.quiet t && m.wver t == some v && c.sys.log.contains (v, false) then some c else none
-  | .writeEnd t .noChange => if c.quiet t && m.wver t == none then some c else none
+    if c.quiet t && m.wver t == some v && c.sys.log.contains (v, false) then some ([], c.win)
+    else none
+  | .writeEnd t .noChange => if c.quiet t && m.wver t == none then some ([], c.win) else none
   | .writeEnd _ .error => none
-  | .ctlRelease blocked =>
-    -- T2 is observed not to finish: its call must be in progress
-    if blocked && c.quiet 2 then none else some c
+  | .ctlRelease _ =>
+    -- informational: "T2 did not finish within the grace period". T2 may not even have logged the
+    -- first event of its call by then, so nothing can be demanded of the model here; that
+    -- begin_write really waits is checked by `write-started` requiring a free slot
+    some ([], c.win)
+
+/-- the effect of one event on one candidate: its visible actions are executed on the model -/
+def applyEv (m : Mon) (c : Cand) (e : Event) : Option Cand :=
+  match evActs m c e with
+  | some (acts, win) =>
+    match exec c.sys acts with
+    | some s => some { sys := s, win := win }
+    | none => none
+  | none => none
 
 /-- candidate-independent bookkeeping -/
 def Mon.note (m : Mon) : Event → Mon
@@ -412,7 +414,7 @@ def diagnose (m : Mon) (cs : List Cand) : Event → Rule
     else .staleRead
   | .readError _ => .readError
   | .writeEnd _ .error => .writeError
-  | .writeStarted t v =>
+  | .writeStarted t _ =>
     if cs.any (fun c => c.sys.pc t == .holding) then .versionOrder
     else if cs.all (fun c => match c.sys.slot with | some w => w != t | none => false) then .twoWriters
     else .protocol
@@ -421,25 +423,23 @@ def diagnose (m : Mon) (cs : List Cand) : Event → Rule
     if cs.any (fun c => c.quiet t) && m.wver t == some v then .commitNotPublished else .protocol
   | .writeEnd t (.aborted v) =>
     if cs.any (fun c => c.quiet t) && m.wver t == some v then .abortPublished else .protocol
-  | .ctlRelease _ => .notBlocked
   | _ => .protocol
 
-/-- consume one event -/
+/-- C16: `ephemeral_savepoint.checked` is only reached when the transaction is not dirty (the
+`tables`-lock model `Tables.step` refuses the savepoint otherwise) -/
+def c16Guard (m : Mon) : Event → Bool
+  | .at t .spChecked => !(m.tx t).dirty
+  | _ => true
+
+/-- consume one event: close the candidate set under hidden actions, keep the candidates that can
+explain the event -/
+def feedCore (m : Mon) (e : Event) : Except Rule Mon :=
+  match dedupe ((closeAll m.cands).filterMap (applyEv m · e)) with
+  | [] => .error (diagnose m (closeAll m.cands) e)
+  | c :: cs => .ok { (m.note e) with cands := c :: cs }
+
 def feed (m : Mon) (e : Event) : Except Rule Mon :=
-  -- C16: `ephemeral_savepoint.checked` is only reached when the transaction is not dirty
-  match e with
-  | .at t .spChecked =>
-    if (m.tx t).dirty then .error .savepointOnDirty
-    else
-      let cs := closeAll m.cands
-      match dedupe (cs.filterMap (applyEv m · e)) with
-      | [] => .error (diagnose m cs e)
-      | cs' => .ok { (m.note e) with cands := cs' }
-  | _ =>
-    let cs := closeAll m.cands
-    match dedupe (cs.filterMap (applyEv m · e)) with
-    | [] => .error (diagnose m cs e)
-    | cs' => .ok { (m.note e) with cands := cs' }
+  if c16Guard m e then feedCore m e else .error .savepointOnDirty
 
 /-- the state every schedule starts from: versions 1 and 2 committed, a reader (thread 0) pinned at
 version 1 — produced by running the model -/
